@@ -202,6 +202,23 @@ def case(c):
     compared += 2
     if not lerr <= 1e-13:
         V('restriction-not-linear', f'R v differs by {lerr:.2e}')
+    # the kernel itself, called with pre-allocated output arrays that still
+    # hold the numbers of an earlier use ('pre-allocated empty arrays'): it
+    # must overwrite its output, not build on what it finds there
+    from emg3d import core
+    wx, wy, wz = solver._get_restriction_weights(grid, cgrid, pattern)
+    outk = emg3d.Field(cgrid, data=zoo.random_field(cgrid, 'junk', dtype,
+                                                    pec=True)*3.3,
+                       frequency=freq)
+    rin = emg3d.Field(grid, data=rv.copy(), frequency=freq)
+    core.restrict(outk.fx, outk.fy, outk.fz, rin.fx, rin.fy, rin.fz, wx, wy,
+                  wz, pattern)
+    kerr = np.abs(outk.field - cs2.field)[ci].max()/np.abs(want).max()
+    compared += 1
+    if not kerr <= wtol:
+        V('restrict-kernel-depends-on-output-array-content',
+          f'core.restrict on a re-used output array differs from the result '
+          f'on a zero array by {kerr:.2e} (pattern {pattern})')
     return {'viol': viol, 'compared': compared, 'transitions': Nf + Nc + 2,
             'nontrivial': bool(ci.any()),
             'outcome': (pattern, int(ci.sum()) > 10)}
